@@ -137,3 +137,30 @@ Theorem C15_zk_expiry_stops_evaluation : forall mi s c,
   /\ snd (step_s mi (fst r) Wake) = [].
 Proof. exact zk_expiry_stops_evaluation. Qed.
 Print Assumptions C15_zk_expiry_stops_evaluation.
+
+(* "it resumes only after the connection is back, the old lock has been released and the lock acquired again": in every
+   trace of the loop, if the expiry is reported while the lock is held (monitor state after the prefix l1), an evaluation
+   after it is preceded -- after that expiry -- by a SUCCESSFUL Unlock and, after that, a successful Lock.  (That the
+   Unlock is only attempted with the connection back is part of C15_eval_only_with_lock: the monitor accepts CallUnlock
+   only when expired and connected.) *)
+Theorem C15_resume_needs_unlock_and_lock : forall mi c0 gs tr l1 a0 l2 e acts l3 g t,
+  snd (run (step_s mi) (init_state c0 gs) tr) = l1 ++ (Expired, a0) :: l2 ++ (e, acts) :: l3 ->
+  m_lock (mon_run (mon0 c0) l1) = LHeld ->
+  In (Eval g t) acts ->
+  exists la lb lc, map fst l2 ++ [e] = la ++ UnlockOk :: lb ++ LockOk :: lc.
+Proof. exact resume_needs_unlock_and_lock. Qed.
+Print Assumptions C15_resume_needs_unlock_and_lock.
+
+(* a FAILING Unlock (the ephemeral node went with the expired session): the loop panics and nothing is ever issued again *)
+Theorem C15_unlock_error_stops_everything : forall mi s tr it,
+  ph s = Unlocking ->
+  In it (snd (run (step_s mi) s (UnlockErr :: tr))) -> it = (UnlockErr, [Panic]) \/ snd it = [].
+Proof. exact unlock_error_stops_everything. Qed.
+Print Assumptions C15_unlock_error_stops_everything.
+
+Example C15_resume_example :
+  snd (run (step_s 0) (init_state true one_group) [Wake; LockOk; Tick 5; Expired; Wake; UnlockErr; Wake; LockOk; Tick 9])
+  = [(Wake, [CallLock]); (LockOk, []); (Tick 5, [Eval 1 5]); (Expired, []); (Wake, [CallUnlock]); (UnlockErr, [Panic]);
+     (Wake, []); (LockOk, []); (Tick 9, [])]
+  /\ m_lock (mon_run (mon0 true) [(Wake, [CallLock]); (LockOk, []); (Tick 5, [Eval 1 5])]) = LHeld.
+Proof. exact resume_example. Qed.
